@@ -11,6 +11,7 @@ def check(ctx, rep):
     gr.gr_8a(ctx, rep)
     gr.gr_8b(ctx, rep)
     gr.gr_8c(ctx, rep)
+    gr.gr_8d(ctx, rep)
     tc.tc_sites(ctx, rep, 'parso/python/tree.py', 'TC-1')
     dar.da_rule(ctx, rep, ['parso/python/tree.py'])
     # helper results memoised on the tree (used names, and whatever is added later) are reset by the incremental parser
